@@ -129,6 +129,170 @@ theorem close_keeps_pending (q : Q) (hw : q.WF) :
   intro s hs
   exact (flush_pend s (hw.1 s hs)).1
 
+/-! ### the sender (`NodeProcessor.SendWrite`) -/
+
+theorem trimHead_spec (q : Q) (hw : q.WF) (hd : ∀ h rest, q.segs = h :: rest → rest ≠ [] → h.pos ≥ h.blocks.length) :
+    q.trimHead.WF ∧ q.trimHead.pending = q.pending := by
+  unfold Q.trimHead
+  cases hs : q.segs with
+  | nil => simp only; exact ⟨hw, trivial⟩
+  | cons h rest =>
+    cases rest with
+    | nil => simp only; exact ⟨hw, trivial⟩
+    | cons s2 rest' =>
+      simp only
+      have hge := hd h (s2 :: rest') hs (by simp)
+      have hbuf : h.buf = [] := hw.2 h (by rw [hs]; simp [List.dropLast])
+      refine ⟨⟨fun s hs' => hw.1 s (by rw [hs]; exact List.mem_cons_of_mem _ hs'), fun s hs' => hw.2 s ?_⟩, ?_⟩
+      · rw [hs]
+        simp only [List.dropLast_cons_cons] at hs' ⊢
+        exact List.mem_cons_of_mem _ hs'
+      · rw [pending_eq, pending_eq, hs]
+        simp [List.flatMap_cons, Seg.pend, hbuf, List.drop_eq_nil_iff.2 hge]
+
+/-- **Advance after Current.** When the head of the queue points at a block, `Advance` removes
+exactly that block — the oldest pending one — and nothing else. -/
+theorem advance_drops_head (q : Q) (hw : q.WF) (b : Block) (hc : q.current = .block b) :
+    (q.advance).1.WF ∧ q.pending = b :: (q.advance).1.pending := by
+  unfold Q.current at hc
+  unfold Q.advance
+  cases hs : q.segs with
+  | nil => simp [hs] at hc
+  | cons h rest =>
+    simp only [hs] at hc ⊢
+    cases hb : h.blocks[h.pos]? with
+    | none => simp [hb] at hc
+    | some b' =>
+      simp only [hb, Res.block.injEq] at hc
+      subst hc
+      have hlt : h.pos < h.blocks.length := by
+        by_contra hge
+        rw [List.getElem?_eq_none (by omega)] at hb
+        cases hb
+      have hnge : ¬ h.pos ≥ h.blocks.length := by omega
+      simp only [hnge, if_false]
+      have hdrop : h.blocks.drop h.pos = b' :: h.blocks.drop (h.pos + 1) := by
+        rw [List.drop_eq_getElem_cons hlt]
+        congr 1
+        rw [List.getElem?_eq_getElem hlt] at hb
+        exact Option.some.inj hb
+      -- the queue after the offset moved
+      let h' : Seg := { h with pos := h.pos + 1, old := false }
+      let q' : Q := { q with segs := h' :: rest }
+      have hw' : q'.WF := by
+        refine ⟨fun s hs' => ?_, fun s hs' => ?_⟩
+        · simp only [q', List.mem_cons] at hs'
+          rcases hs' with rfl | hs'
+          · show h.pos + 1 ≤ h.blocks.length
+            omega
+          · exact hw.1 s (by rw [hs]; exact List.mem_cons_of_mem _ hs')
+        · have : s ∈ (h :: rest).dropLast ∨ (s = h' ∧ rest ≠ []) := by
+            cases rest with
+            | nil => simp [q', List.dropLast] at hs'
+            | cons r rs =>
+              simp only [q', List.dropLast_cons_cons, List.mem_cons] at hs'
+              rcases hs' with rfl | hs'
+              · exact Or.inr ⟨rfl, by simp⟩
+              · exact Or.inl (by simp only [List.dropLast_cons_cons]; exact List.mem_cons_of_mem _ hs')
+          rcases this with hm | ⟨rfl, hne⟩
+          · exact hw.2 s (by rw [hs]; exact hm)
+          · show h.buf = []
+            apply hw.2 h
+            rw [hs]
+            cases rest with
+            | nil => exact absurd rfl hne
+            | cons r rs => simp [List.dropLast_cons_cons]
+      have hp' : q.pending = b' :: q'.pending := by
+        rw [pending_eq, pending_eq, hs]
+        simp [q', h', List.flatMap_cons, Seg.pend, hdrop]
+      split
+      · rename_i hend
+        obtain ⟨hw2, hp2⟩ := trimHead_spec q' hw' (by
+          intro hh rr hseg _
+          simp only [q', List.cons.injEq] at hseg
+          obtain ⟨rfl, _⟩ := hseg
+          exact hend)
+        exact ⟨hw2, by rw [hp2]; exact hp'⟩
+      · exact ⟨hw', hp'⟩
+
+/-- **The sender's reaction to an empty-looking queue keeps every block.** -/
+theorem skipDrainedHead_keeps_pending (q : Q) (hw : q.WF) :
+    q.skipDrainedHead.WF ∧ q.skipDrainedHead.pending = q.pending := by
+  unfold Q.skipDrainedHead
+  cases hs : q.segs with
+  | nil => simp only; exact ⟨hw, trivial⟩
+  | cons h rest =>
+    simp only
+    split
+    · rename_i hd
+      apply trimHead_spec q hw
+      intro hh rr hseg _
+      rw [hs] at hseg
+      simp only [List.cons.injEq] at hseg
+      obtain ⟨rfl, _⟩ := hseg
+      simp only [Seg.drained, Bool.and_eq_true, decide_eq_true_eq] at hd
+      exact hd.1
+    · exact ⟨hw, rfl⟩
+
+/-- the blocks of `mid` that were accepted, in order -/
+def accepted (q : Q) : List (Block × Bool) → List Block
+  | [] => []
+  | a :: rest => (if (q.append a.1 a.2).2 = .ok then [a.1] else []) ++ accepted (q.append a.1 a.2).1 rest
+
+theorem applyAppends_spec (q : Q) (hw : q.WF) (mid : List (Block × Bool)) :
+    (applyAppends q mid).WF ∧ (applyAppends q mid).pending = q.pending ++ accepted q mid ∧
+    ∀ b, q.current = .block b → (applyAppends q mid).current = .block b := by
+  induction mid generalizing q with
+  | nil => simp [applyAppends, accepted, hw]
+  | cons a rest ih =>
+    obtain ⟨hw1, hok, hno⟩ := append_refines q hw a.1 a.2
+    obtain ⟨hw2, hp2, hc2⟩ := ih (q.append a.1 a.2).1 hw1
+    simp only [applyAppends, List.foldl_cons] at hw2 hp2 hc2 ⊢
+    refine ⟨hw2, ?_, fun b hb => hc2 b (append_current q b a.1 a.2 hb)⟩
+    rw [hp2]
+    simp only [accepted]
+    by_cases hr : (q.append a.1 a.2).2 = .ok
+    · rw [hok hr]; simp [hr]
+    · rw [hno hr]; simp [hr]
+
+/-- **One round of the sender loses nothing.** Whatever appends other goroutines get in
+between the sender's look at the head of the queue and its reaction — accepted or refused,
+buffered or not — the blocks in the queue afterwards, preceded by the block handed to the shard
+writer (if any), are exactly the blocks that were pending plus the accepted ones, in order.
+In particular an accepted block is never dropped unsent. -/
+theorem sendWrite_loses_nothing (q : Q) (hw : q.WF) (mid : List (Block × Bool)) (writerOK : Bool) :
+    let r := sendWrite q mid writerOK
+    r.1.WF ∧ r.2.toList ++ r.1.pending = q.pending ++ accepted q mid := by
+  obtain ⟨hw1, hp1, hc1⟩ := applyAppends_spec q hw mid
+  simp only [sendWrite]
+  cases hc : q.current with
+  | block b =>
+    simp only
+    cases writerOK with
+    | true =>
+      simp only [if_true]
+      obtain ⟨hw2, hp2⟩ := advance_drops_head _ hw1 b (hc1 b hc)
+      exact ⟨hw2, by simp [← hp1, hp2]⟩
+    | false => simpa using ⟨hw1, hp1⟩
+  | eof =>
+    simp only
+    obtain ⟨hw2, hp2⟩ := skipDrainedHead_keeps_pending _ hw1
+    exact ⟨hw2, by simp [hp2, hp1]⟩
+  | ok => simpa using ⟨hw1, hp1⟩
+  | notOpen => simpa using ⟨hw1, hp1⟩
+  | full => simpa using ⟨hw1, hp1⟩
+  | segmentFull => simpa using ⟨hw1, hp1⟩
+  | bool _ => simpa using ⟨hw1, hp1⟩
+
+/-- **The pinned defect as a theorem.** The sender as it was (`Advance` when `Current`
+reported end-of-queue) drops an accepted block without sending it: on the empty queue with one
+append landing in between, the block is neither handed to the writer nor pending afterwards. -/
+theorem sendWriteOld_loses_accepted_block :
+    ∃ (q : Q) (mid : List (Block × Bool)), q.pending = [] ∧ accepted q mid = [[7]] ∧
+      (sendWriteOld q mid true).2 = none ∧ (sendWriteOld q mid true).1.pending = [] :=
+  ⟨{ segs := [newSeg 1 64], nextID := 2, maxSegSize := 64, maxSize := 1000, closedSegs := [] },
+   [([7], false)], by decide, by decide, by decide, by decide⟩
+
 /-! ### splitting an oversized batch -/
 
 /-- the chunks produced by the bisection are contiguous, start at `i`, end at the last
